@@ -7,7 +7,8 @@
 //!         `Program::expand_defgate_sequences(filter)`; body, kept `gate_definitions` keys and the error
 //!         category are compared with the model's.
 //! drive:  seeded random definition tables (up to 5 sequence definitions with up to 2 parameters and
-//!         3 formal qubits, bodies of up to 3 elements, plus a matrix definition), random filters and
+//!         3 formal qubits, bodies of 0..3 elements incl. empty and transitively empty ones, plus a matrix
+//!         definition), random filters and
 //!         bodies of up to 6 instructions — beyond the exhaustive bound; events reset/result/info go to
 //!         spec/trace/GateSequenceTrace.tla, where TLC evaluates the declarative expansion, the keep-set
 //!         and the error conditions on the recorded real results.
@@ -544,14 +545,24 @@ pub fn random_case(r: &mut impl Rng) -> (Vec<Value>, BTreeSet<String>, Vec<Value
         .collect();
     let anomaly_rate = [0.0, 0.0, 0.03, 0.15][r.gen_range(0..4)];
     let mut defs = vec![];
+    // degenerate sizes: a definition with an EMPTY body (not writable in Quil text; built through
+    // DefGateSequence::try_new(qubits, vec![])), and definitions whose body refers to nothing but it
+    let empty_def = if r.gen_bool(0.35) { Some(r.gen_range(0..sigs.len())) } else { None };
     for (at, (name, params, formals)) in sigs.iter().enumerate() {
-        let ng = r.gen_range(1..=3);
+        let ng = if Some(at) == empty_def { 0 } else { r.gen_range(1..=3) };
+        let only_empty = empty_def.is_some() && Some(at) != empty_def && r.gen_bool(0.2);
         let mut gates = vec![];
         for _ in 0..ng {
-            let refer = r.gen_bool(if at + 1 < sigs.len() { 0.55 } else { 0.1 });
+            let refer = only_empty || r.gen_bool(if at + 1 < sigs.len() { 0.55 } else { 0.1 });
             if refer {
                 // mostly forward references (deep acyclic nesting), sometimes any (cycles of every length)
-                let target = if at + 1 < sigs.len() && r.gen_bool(0.92) { r.gen_range(at + 1..sigs.len()) } else { r.gen_range(0..sigs.len()) };
+                let target = if only_empty {
+                    empty_def.unwrap()
+                } else if at + 1 < sigs.len() && r.gen_bool(0.92) {
+                    r.gen_range(at + 1..sigs.len())
+                } else {
+                    r.gen_range(0..sigs.len())
+                };
                 let (tn, tp, tq) = &sigs[target];
                 let np = if r.gen_bool(anomaly_rate) { r.gen_range(0..=2) } else { tp.len() };
                 let nq = if r.gen_bool(anomaly_rate) { r.gen_range(1..=3) } else { tq.len() };
